@@ -4,7 +4,7 @@ from __future__ import annotations
 
 from ..execmodel import FullHooks, define_variables, make_session, run_execute
 from ..interp import explore
-from ..values import Const, Dct, Lst, Obj, Seq, Str, Sym, Tup, tagof
+from ..values import Const, Dct, Lst, NodeV, Obj, Seq, Str, Sym, Tup, tagof
 from .c05 import _prov_nodes
 
 EXPLANATION = (
@@ -275,8 +275,35 @@ def rule_placeholder_order(ctx):
     cases = [("OBJECT_CONSTRUCT('b', ?, 'a', ?) keeps the pairs (and their placeholders) in written order", "object_construct", make,
               lambda o, i: P("Anonymous", this="TO_JSON", expressions=LIST(P("Struct", expressions=LIST(IS(o["kv1"]), IS(o["kv2"]))))),
               "qmark / numeric parameters are bound to the n-th placeholder of the generated SQL: reordering the pairs binds the values to the wrong keys")]
+    def occurs_once(opnd):
+        def pat(v, path):
+            cnt = 0
+
+            def walk(x, depth=0):
+                nonlocal cnt
+                if x is opnd:
+                    cnt += 1
+                    return
+                if depth > 12:
+                    return
+                if isinstance(x, NodeV):
+                    for a_ in x.args.values():
+                        walk(a_, depth + 1)
+                elif isinstance(x, (Lst, Tup)):
+                    for a_ in x.items:
+                        walk(a_, depth + 1)
+            walk(v)
+            return None if cnt == 1 else f"{path} contains the operand {cnt} times, expected once"
+        return pat
+
+    def make_size():
+        ops = {"ph": node("Placeholder", "ph1")}
+        return node("ArraySize", "stmt", this=ops["ph"]), ops
+
+    cases.append(("ARRAY_SIZE(?) keeps one placeholder", "array_size", make_size, lambda o, i: occurs_once(o["ph"]),
+                  "an operand rendered twice doubles the `?` inside it: the prepared statement then needs more parameters than the caller bound"))
     n = run_cases(ctx, "C08.h", cases)
-    ctx.floor("C08.h cases", n, 1)
+    ctx.floor("C08.h cases", n, 2)
 
 
 def rule_reembedded_text(ctx):
